@@ -103,4 +103,17 @@ def parseMemory (s : List Char) : Outcome := parseBytes SizeGrammar.memorySuffix
 /-- `parse_storage_in_bytes` -/
 def parseStorage (s : List Char) : Outcome := parseBytes SizeGrammar.storageSuffixes SizeGrammar.storageTrailingB s
 
+/-! ### the server side: `batch/batch/front_end/validate.py`, `job_validator['resources']`
+
+`'cpu': regex(CPU_REGEXPAT, CPU_REGEX)`, `'storage': regex(STORAGE_REGEXPAT, STORAGE_REGEX)`,
+`'memory': anyof(regex(MEMORY_REGEXPAT, MEMORY_REGEX), oneof(*memory_types))`; `RegexValidator.validate` is
+`re_obj.fullmatch(obj)` on the compiled objects imported from `parse.py`. -/
+
+def serverAcceptsCpu (s : List Char) : Bool := (matchSize SizeGrammar.cpuSuffixes SizeGrammar.cpuTrailingB s).isSome
+def serverAcceptsStorage (s : List Char) : Bool :=
+  (matchSize SizeGrammar.storageSuffixes SizeGrammar.storageTrailingB s).isSome
+def serverAcceptsMemory (s : List Char) : Bool :=
+  (matchSize SizeGrammar.memorySuffixes SizeGrammar.memoryTrailingB s).isSome
+    || SizeGrammar.memoryTypes.any (fun w => w.toList == s)
+
 end HailVerif.SizeParse
